@@ -6,8 +6,9 @@ from vlib.props import c01
 from vlib import split_corr
 
 PROP = "C04"
-THEOREMS = ["GitAi.Split3.classify_spec", "GitAi.Split3.split_coordinates_partial",
-            "GitAi.Split3.witness_unstaged_deletion", "GitAi.Split3.split_outputs_wf",
+THEOREMS = ["GitAi.Split3.classify_spec", "GitAi.Split3.split_coordinates", "GitAi.Split3.changed_line_position",
+            "GitAi.Split3.work_line_cases", "GitAi.Split3.regression_unstaged_deletion",
+            "GitAi.Split3.regression_unstaged_replacement_above", "GitAi.Split3.split_outputs_wf",
             "GitAi.Sys.every_commit_exact", "GitAi.Sys.pending_line_carried",
             "GitAi.Sys.regression_pending_edited_before_checkpoint"]
 
@@ -136,10 +137,10 @@ def gen_scenario(seed):
     return {"seed": seed, "style": "plain", "file_opts": {}, "steps": steps, "tags": sorted(set(tags))}
 
 
-def o2_condition(committed, work):
-    """O2 family: the working tree differs from the committed version in a region that removes or
-    replaces committed lines (not a pure insertion) and an AI line sits below that region."""
-    pos_ai_below = False
+def unstaged_non_insertion_above_ai(committed, work):
+    """The working tree differs from the committed version in a region that removes or replaces
+    committed lines (not a pure insertion) and an AI line sits below that region — the family of the
+    repaired O2 defect (coordinate translation ignored removed lines); only used as a distribution tag."""
     regs = regions(committed, work)
     for k, r in enumerate(regs):
         if r[0] == "chg" and r[1]:
@@ -167,7 +168,6 @@ def _run_scenario(sc):
         with e2e.Env() as env:
             run = S.Runner(env, file_opts=sc.get("file_opts"))
             run.work_at_commit = {}
-            o2_taint = set()       # files committed while a non-insertion unstaged change sat above AI lines
             watch = set()          # files with pending (uncommitted) AI lines after a partial commit
             stale_initial = set()  # ... that a person then edited before any checkpoint saw them
             for st in sc["steps"]:
@@ -194,9 +194,8 @@ def _run_scenario(sc):
                     k = len(run.commits) - 1
                     run.work_at_commit[k] = {p: [list(l) for l in ls] for p, ls in run.ghost.items()}
                     tree = run.commits[k][1]
-                    for p_, ls in run.ghost.items():
-                        if o2_condition(tree.get(p_, []), ls):
-                            o2_taint.add(p_)
+                    if any(unstaged_non_insertion_above_ai(tree.get(p_, []), ls) for p_, ls in run.ghost.items()):
+                        sc["tags"] = sorted(set(sc["tags"]) | {"commit-with-unstaged-deletion-or-replacement-above-ai-line"})
                     for p_, ls in run.ghost.items():
                         have = {(l[2], l[0]) for l in tree.get(p_, [])}
                         if any(l[1] is not None and (l[2], l[0]) not in have for l in ls):
@@ -205,10 +204,6 @@ def _run_scenario(sc):
                 fs = []
                 c01.check_commit(run, i, fs)
                 for sig, d in fs:
-                    if sig == "ws-only-retouch-of-committed-ai-line":
-                        pass
-                    elif d.get("path") in o2_taint:
-                        sig = "unstaged-non-insertion-change-above-ai-line"
                     failures.append((sig, d))
             # every AI line (uid) is listed by exactly one note
             seen = {}
@@ -226,7 +221,7 @@ def _run_scenario(sc):
             # files on which the binary deviates from the idealised model through a recorded finding
             idealised = {d.get("path") for sig, d in failures
                          if sig == "uncommitted-ai-line-reindented-next-to-a-change-in-the-same-interval"}
-            sc["_skip"] = sorted(o2_taint | idealised)
+            sc["_skip"] = sorted(idealised)
     except Exception as ex:
         failures.append(("runner-exception", {"error": repr(ex), "trace": traceback.format_exc()[-1500:]}))
     return failures, ncommits, corr
@@ -273,10 +268,14 @@ def phase_e2e(res, seeds, threads=16):
 
 def run(tier, seed):
     res = C.Result(PROP, tier, seed)
-    res.rule = ("end-to-end: AI and human edits over 1-3 files split across 2-4 successive commits by file (git add <paths>) and "
+    res.rule = ("in-process: edit scripts (kept lines, pure insertions, pure deletions, replacements of unequal length) -> every "
+                "working-tree line through the real commit_position vs ground truth and vs Split3.locate; arbitrary hunk lists incl. "
+                "values next to u32::MAX; generated -U0 diff texts through parse_diff_hunks. "
+                "end-to-end: AI and human edits over 1-3 files split across 2-4 successive commits by file (git add <paths>) and "
                 "by hunk (an explicit mix of HEAD and working-tree regions written to the index, as git add -p would), with "
                 "further edits in between, final commit of everything; non-trivial = at least two non-base commits")
-    res.trusted = ["Lean 4.33 kernel", "vlib/sysrun.py ghost tracking", "real git 2.39 as reference for what each commit adds"]
+    res.trusted = ["Lean 4.33 kernel", "vlib/sysrun.py ghost tracking", "real git 2.39 as reference for what each commit adds",
+                   "harness/src/suites/split3.rs (edit-script generator, hunks by git's -U0 convention, ground truth per line)"]
     ok, out = C.build_git_ai()
     if not ok:
         res.obligation("build binary from /repo working tree", False, "build")
@@ -284,6 +283,16 @@ def run(tier, seed):
         return res.finish()
     if os.path.exists(os.path.join(C.LEAN, "GitAiModel", "Props", "C04.lean")):
         C.phase_proofs(res, PROP, THEOREMS)
+    ok, out = C.build_harness()
+    if not ok:
+        res.obligation("build harness", False, "build")
+        res.broken_tie("build", out[-3000:])
+        return res.finish()
+    n_inproc = 4000 if tier == "quick" else 200000
+    bad, _ = C.phase_suite(res, "split3", seed, n_inproc, os.path.join(C.VERIF, "corpus", "C04", "split3.jsonl"))
+    if bad:
+        # tie broken (model ≠ code): search the real translation for a mistranslated line on more scripts
+        C.phase_suite(res, "split3", seed + 7919, 40000, name="search:split3 (ground-truth oracle on 40000 more edit scripts)")
     nsc = 128 if tier == "quick" else 2400
     phase_e2e(res, [seed * 100000 + i for i in range(nsc)])
     if res.broken and not res.violations:
